@@ -247,6 +247,13 @@ Fixpoint insert_num (x : item) (l : list item) : list item :=
   end.
 Definition sorted_results (l : list item) : list item := fold_left (fun acc x => insert_num x acc) l [].
 Definition good (l : list item) : list item := filter (fun it => negb (is_exc it)) l.
+(* the consumer loops of GridSearch._fit / Sensitivity.run: every yielded result is stored until the first yielded
+   exception, which ends the loop (Sensitivity: `raise result`; GridSearch: `builder.add(exception)` fails) *)
+Fixpoint consume (l : list item) (acc : list item) : option E * list item :=
+  match l with
+  | [] => (None, acc)
+  | it :: r => match snd it with Exc e => (Some e, acc) | Ok _ => consume r (acc ++ [it]) end
+  end.
 
 End Pools.
 
@@ -327,7 +334,12 @@ Inductive case :=
         (expected : init_result Z Z Z)
 | CJobs (workers : nat) (outs : list (outcome Z Z)) (sched : list jaction)
         (items : list (option nat * Z)) (raised : option Z) (summ : list (option Z)) (srt : list (nat * Z))
-        (evals : list nat).
+        (evals : list nat)
+(* real GridSearch.fit / Sensitivity.run on number_of_cores = workers + 1: [raised] = None (returned), Some None (an
+   exception whose origin cannot be read off), Some (Some c) (the exception of cell c); [stored] = index column of
+   results.csv (arrival order, or sorted for Sensitivity); [final] = what the returned result holds per cell *)
+| CCaller (sorted_csv : bool) (workers : nat) (outs : list (outcome Z Z)) (sched : list jaction)
+          (raised : option (option Z)) (stored : list nat) (final : list (option Z)).
 
 Definition check_case (c : case) : bool :=
   match c with
@@ -341,4 +353,18 @@ Definition check_case (c : case) : bool :=
       && list_eqb (opt_eqb Z.eqb) (map okval (summaries (length outs) (good (jtaken s)))) summ
       && list_eqb nz_eqb (map numval (sorted_results (good (jtaken s)))) srt
       && list_eqb Nat.eqb (map (fun k => if existsb (fun it : item Z Z => fst it =? k) (jq s) then 0 else 1) (seq 0 (length outs))) evals
+  | CCaller sorted_csv workers outs sched raised stored final =>
+      let s := run_jobs workers outs sched in
+      let (r, acc) := consume (jtaken s) [] in
+      (match raised, r with
+       | None, None => jdone s
+       | Some None, Some _ => true
+       | Some (Some c), Some e => Z.eqb c e
+       | _, _ => false
+       end)
+      && list_eqb Nat.eqb (map fst (if sorted_csv then sorted_results acc else acc)) stored
+      && (match r with
+          | None => list_eqb (opt_eqb Z.eqb) (map okval (summaries (length outs) acc)) final
+          | Some _ => true
+          end)
   end.
